@@ -132,27 +132,48 @@ def run_harness(profile, scn_path, isolate=False):
     """run the scenario file on the real generated code; returns list of per-scenario line lists.
     If the process dies (debug builds: std's UB checks abort, they do not unwind) every scenario is re-run in
     its own process, line by line; the step that killed it is reported as `I <step> abort` / `S <step> abort`."""
-    rc, out, err = run([harness_bin(profile), "run", scn_path], timeout=3600)
-    if rc == 0:
-        return split_transcript(out)
     n = sum(1 for l in open(scn_path) if l.startswith("shape "))
-    import concurrent.futures
-    def one(k):
-        rc1, out1, err1 = run([harness_bin(profile), "run1", scn_path, str(k)], timeout=600)
-        lines = [l for l in out1.splitlines() if not l.startswith("# scenario")]
-        if rc1 != 0:
+    def run_range(lo, hi):
+        result = []
+        start = lo
+        err = ""
+        while start < hi:
+            rc, out, err = run([harness_bin(profile), "run", scn_path, str(start), str(hi)], timeout=3600)
+            got = split_transcript(out)
+            if rc == 0:
+                result += got
+                break
+            # the process died in scenario `start + complete`: keep the complete ones, re-run the fatal one live
+            complete = [g for g in got if any(l.startswith("I end") for l in g)]
+            result += complete
+            k = start + len(complete)
+            if k >= hi: break
+            rc1, out1, err1 = run([harness_bin(profile), "run1", scn_path, str(k)], timeout=600)
+            lines = [l for l in out1.splitlines() if not l.startswith("# scenario")]
             steps = [l for l in lines if l.startswith("# step")]
             step = steps[-1].split()[2] if steps else "0"
             lines = [l for l in lines if not l.startswith("# step")]
-            # drop a half-reported step, then mark the abort
-            lines = [l for l in lines if l.split()[1] != step]
-            lines += [f"I {step} abort ret=- rev=[] ev=[] regs=~ signal={-rc1 if rc1 < 0 else rc1}", f"S {step} noabort ret=- rev=[] ev=[] regs=~"]
-            lines += ["I end abort double_drop=false leak=false", "S end abort double_drop=false leak=false"]
-        else:
-            lines = [l for l in lines if not l.startswith("# step")]
-        return lines
-    with concurrent.futures.ThreadPoolExecutor(max_workers=16) as ex:
-        return list(ex.map(one, range(n)))
+            if rc1 != 0:
+                # two very different deaths: std's check of an unsafe precondition (an unchecked out-of-bounds access was
+                # executed) vs a second panic while unwinding (e.g. the destructor of a desynchronised nested container)
+                cause = "ubcheck" if "UBCHECK" in err1 else "double-panic"
+                lines = [l for l in lines if l.split()[1] != step]
+                if step != "end":
+                    lines += [f"I {step} abort ret=- rev=[] ev=[] regs=~ cause={cause} signal={-rc1 if rc1 < 0 else rc1}", f"S {step} noabort ret=- rev=[] ev=[] regs=~"]
+                lines += [f"I end abort double_drop=false leak=false cause={cause}", "S end abort double_drop=false leak=false"]
+            result.append(lines)
+            start = k + 1
+        if len(result) != hi - lo:
+            raise BuildError(f"harness transcript has {len(result)} scenarios for [{lo},{hi}), expected {hi - lo}: {err[-500:]}")
+        return result
+    if n < 400:
+        return run_range(0, n)
+    import concurrent.futures
+    w = 16
+    bounds = [(i * n // w, (i + 1) * n // w) for i in range(w)]
+    with concurrent.futures.ThreadPoolExecutor(max_workers=w) as ex:
+        parts = list(ex.map(lambda b: run_range(*b), bounds))
+    return [sc for p in parts for sc in p]
 
 
 def run_model(scn_path, prof="debug"):
